@@ -67,8 +67,10 @@ fn stub_king_attacks(_s: weechess_core::Square) -> BitBoard {
 }
 
 fn abstract_term(_v: &StateVariation<'_>, _p: &Color, eval: &mut Evaluation, _stop: &mut bool) {
+    // any magnitude that cannot overflow the i32 sum: a position with a legal move must get a NON-terminal score however
+    // large the heuristic terms are (nine queens against a bare king are worth more than the mate threshold)
     let x: i32 = kani::any();
-    kani::assume(x >= -1000 && x <= 1000);
+    kani::assume(x >= -1_000_000 && x <= 1_000_000);
     *eval = Evaluation(x);
 }
 
@@ -84,6 +86,18 @@ fn symbolic_state() -> (State, bool) {
     let mut p = [BitBoard::ZERO; 16];
     p[6] = BitBoard::new(1u64 << wk);
     p[14] = BitBoard::new(1u64 << bk);
+    // plus up to one more piece of any kind for each side on any other square (material must not influence the
+    // decision between mate, stalemate and "has a move")
+    let (x, y): (u8, u8) = (kani::any(), kani::any());
+    let (kx, ky): (u8, u8) = (kani::any(), kani::any());
+    kani::assume(x < 64 && y < 64 && x != y && x != wk && x != bk && y != wk && y != bk);
+    kani::assume(kx <= 5 && ky <= 5);
+    if kx > 0 {
+        p[kx as usize] = BitBoard::new(1u64 << x);
+    }
+    if ky > 0 {
+        p[8 + ky as usize] = BitBoard::new(1u64 << y);
+    }
     let turn = if kani::any() { Color::White } else { Color::Black };
     let state = State::new(
         Board::new(ArrayMap::new(p)),
